@@ -197,6 +197,18 @@ fn with_listener<T>(tr: Transport, f: impl FnOnce(&Socket, &socket2::SockAddr) -
     })
 }
 
+/// two connected raw TCP sockets (through the worker's listener)
+pub fn raw_tcp_pair() -> Result<(Socket, Socket), String> {
+    let tr = Transport::Tcp;
+    let a = with_listener(tr, |_, a| a.clone());
+    let c = peer::raw_connect(tr, &a, false).map_err(|e| format!("raw connect: {e}"))?;
+    c.set_nonblocking(false).ok();
+    let (p, _) = peer::wait_for(Duration::from_secs(2), || with_listener(tr, |lis, _| lis.accept().ok())).ok_or("raw accept failed")?;
+    p.set_nonblocking(false).ok();
+    peer::set_linger0(std::os::fd::AsRawFd::as_raw_fd(&p));
+    Ok((c, p))
+}
+
 /// How the compio stream comes into being: wrapped around a connected std socket (`from_std`,
 /// no asynchronous operation involved) or connected by compio itself.
 #[derive(Clone, Copy, Debug, PartialEq, Eq)]
@@ -443,7 +455,7 @@ impl<'a> World<'a> {
             // SOL_SOCKET / SO_TIMESTAMPING with no flags: accepted by TCP sendmsg, no effect
             Transport::Tcp => bufs::cmsg_u32(libc::SOL_SOCKET, libc::SO_TIMESTAMPING, 0),
             // pass a descriptor (our own stderr); the peer must receive exactly one descriptor
-            Transport::Unix => bufs::cmsg_u32(libc::SOL_SOCKET, libc::SCM_RIGHTS, 2),
+            _ => bufs::cmsg_u32(libc::SOL_SOCKET, libc::SCM_RIGHTS, 2),
         };
         let fut: crate::sops::LocalFut<SendOut> = match kind {
             SendKind::Write => {
@@ -908,7 +920,7 @@ impl<'a> World<'a> {
                     self.viol("recv-control", class, format!("control length {cl} on a TCP stream without any option enabled"));
                 }
             }
-            Transport::Unix => {
+            _ => {
                 // One SCM_CREDENTIALS message.  The pid inside is whatever the kernel translated
                 // (an io_uring receive that was armed before the data arrived reports pid 0 on
                 // this kernel; that is not compio's doing), so only the framing is checked.
